@@ -8,6 +8,8 @@ import NA.Proofs.F2Equiv
 import NA.Proofs.F2Plan
 import NA.Proofs.F2Quiet
 import NA.Proofs.F2Again
+import NA.Proofs.F2Resume
+import NA.Proofs.F2RouteScript
 /-!
 # F2 — the IOS diff engine on fragment F2 (C02, C07, C08, C10, C14)
 
@@ -446,6 +448,103 @@ theorem ios_no_generated_leftover (a0 b : Config) (sc : Scripts) (hw : wfB a0 b 
     exact Or.inl ⟨bi, hbi, bd, hbd, (hA.slotB bi hbi bd hbd).2.1⟩
   · exact Or.inr k
 
+/-! ## 5c. Resume after an interrupted approve (C10) -/
+
+/-- **`ios_F2_resume_partial`**.  Under `wfB` the script is sent line by line (`splitScript`: the two
+halves of a joined line `no N\N M TEXT` / `no ip route A\N ip route B` are two lines) and the
+connection is lost after ANY number `k` of lines: inside an ACL or interface sub-mode, between
+the resequence lines, between the halves of a joined line.  Then
+
+* the `k` lines are accepted and lead to a device `dk`;
+* in a new session (top-level mode, `strip`) a compare reads `dk` as the configuration
+  `ak = reconf dk` (`Reads`: same interfaces, bindings, route lines, access lists and lines — the entry
+  numbers left behind by the interrupted run play no role);
+* for EVERY Myers result `sc2` for which the cut state is in the class again (`wfB ak b sc2`, decidable,
+  evaluated by the driver on every cut): `checkIOSInterfaces` succeeds, the second script is accepted
+  command by command from `dk`, and the device ends as `ios_F2_converges_partial` says: every target
+  binding in place with an ACL block-equivalent modulo `log` to the target's, other directions
+  unbound, routes of the VRFs with target routes exactly the target's, other routes untouched,
+  interfaces the target does not name and their ACLs as they were at the cut.
+
+`wfB` is NOT closed under prefixes (`ios_wfB_not_prefix_closed`): a target ACL with a remark line that
+is transferred as a whole needs no hypothesis in the first run, but is compared line by line with
+itself in the second.  So the full statement `ios_F2_resume` (no hypothesis on the cut state) is not
+available from `ios_F2_converges_partial`; with remark lines it is false (F-C02r, signature
+`resume_not_converged`). -/
+theorem ios_F2_resume_partial (a0 b : Config) (sc : Scripts) (hw : wfB a0 b sc = true) (hok : (engine a0 b sc).ok = true)
+    (k : Nat) :
+    ∃ dk, exec (ofConfig a0) ((splitScript (engine a0 b sc).script).take k) = some dk ∧
+      Reads (strip dk) (reconf a0 (a0.routes ++ b.routes) dk) ∧
+      ∀ sc2, wfB (reconf a0 (a0.routes ++ b.routes) dk) b sc2 = true →
+        (engine (reconf a0 (a0.routes ++ b.routes) dk) b sc2).ok = true ∧
+        ∃ d', (exec (strip dk) (engine (reconf a0 (a0.routes ++ b.routes) dk) b sc2).script).map strip = some d' ∧
+          (∀ bi ∈ b.intfs, ∀ bd ∈ bi.binds, ∃ n, slotOf d' bi.name bd.dir = some n ∧ hasAcl d' n = true ∧
+              BlockEquivA (linesOf d' n) (b.lines bd.acl)) ∧
+          (∀ bi ∈ b.intfs, ∀ dir, isDir dir = true → dir ∉ bi.binds.map (·.dir) → slotOf d' bi.name dir = none) ∧
+          (∀ r ∈ (reconf a0 (a0.routes ++ b.routes) dk).routes ++ b.routes, r.vrf ∈ b.routes.map (·.vrf) →
+              (r.text ∈ d'.routes ↔ r.text ∈ b.routes.map (·.text))) ∧
+          (∀ t ∈ d'.routes, t ∈ dk.routes ∨ t ∈ b.routes.map (·.text)) ∧
+          (∀ r ∈ (reconf a0 (a0.routes ++ b.routes) dk).routes, r.vrf ∉ b.routes.map (·.vrf) → r.text ∈ d'.routes) ∧
+          (∀ x, x ∉ b.intfs.map (·.name) → ∀ dir, isDir dir = true → slotOf d' x dir = slotOf dk x dir) ∧
+          (∀ i ∈ (reconf a0 (a0.routes ++ b.routes) dk).intfs, i.name ∉ b.intfs.map (·.name) → ∀ bd ∈ i.binds,
+              hasAcl d' bd.acl = true ∧ entriesOf d' bd.acl = entriesOf dk bd.acl) := by
+  obtain ⟨dk, h1, h2, h3⟩ := F2_resume a0 b sc (WF_of_wfB hw) hok k
+  refine ⟨dk, h1, h2, ?_⟩
+  intro sc2 hw2
+  obtain ⟨hok2, d', j0, j1, j2, j3, j4, j5, j6, j7⟩ := h3 sc2 (WF_of_wfB hw2)
+  refine ⟨hok2, d', j0, ?_, j2, j3, j4, j5, j6, j7⟩
+  intro bi hbi bd hbd
+  obtain ⟨n, k1, k2, k3⟩ := j1 bi hbi bd hbd
+  exact ⟨n, k1, k2, k3.blockEquivA⟩
+
+/-- Sending the joined lines as two lines is the same as sending them as one (`exec` on `Chg.move` /
+`Chg.replRoute`): the cut-free run of `ios_F2_resume_partial` is the run of `ios_F2_converges_partial`. -/
+theorem ios_split_script_same (d : Dev) (cs : List Chg) : exec d (splitScript cs) = exec d cs := exec_splitScript d cs
+
+/-! ## 5d. Routes: every destination stays covered at every step (C14) -/
+
+/-- **`ios_route_plan_phases`**: `NA.Route.routes_covered` (Props/C14) closed for the model of
+`diffRoutes`.  For every compared device route list `al`, target route list `bl` and device route
+table `R` of the class `RoutesWF` (lines pairwise different per side, compared routes on the device,
+no stray copy of a target route) and every reader `keyOf` of (VRF, destination) that agrees with the
+parsed attributes: the plan is `pa ++ pb`, it is accepted, and under the numeric encoding
+`encRoute`/`encOp` the three hypotheses of `routes_covered` hold — `phaseA pa` (additions and
+replacements of a route by a route to the SAME destination in the same VRF, one joined command),
+`phaseB pb` (removals of lines that are not target routes), after `pa` every target route is on the
+device — and therefore after EVERY command of the plan every destination that has a route before and
+after the plan has a route. -/
+theorem ios_route_plan_phases (al bl : List Route) (R : List String) (keyOf : String → String × String)
+    (h : RoutesWF al bl R) (hkey : ∀ r ∈ al ++ bl, keyOf r.text = r.key) :
+    ∃ R' pa pb, (routePlan al bl).1 = pa ++ pb ∧ rRun R (routePlan al bl).1 = some R' ∧
+      NA.Route.phaseA (pa.map (encOp keyOf (R ++ bl.map (·.text)))) = true ∧
+      NA.Route.phaseB ((bl.map (·.text)).map (encRoute keyOf (R ++ bl.map (·.text))))
+        (pb.map (encOp keyOf (R ++ bl.map (·.text)))) = true ∧
+      (∀ r ∈ (bl.map (·.text)).map (encRoute keyOf (R ++ bl.map (·.text))),
+        r ∈ (pa.map (encOp keyOf (R ++ bl.map (·.text)))).foldl NA.Route.rexec1 (R.map (encRoute keyOf (R ++ bl.map (·.text))))) ∧
+      ∀ k, ∃ Rk, rRun R ((routePlan al bl).1.take k) = some Rk ∧
+        ∀ t0 ∈ R, (∃ t ∈ R', keyOf t = keyOf t0) → ∃ t ∈ Rk, keyOf t = keyOf t0 :=
+  routes_covered_every_step al bl R keyOf h hkey
+
+/-- The route commands of the printed script of the engine, in order, are exactly the route plan
+(no other decision prints a route command). -/
+theorem ios_route_commands_are_plan (a0 b : Config) (sc : Scripts) (hw : wfB a0 b sc = true) (hok : (engine a0 b sc).ok = true) :
+    (engine a0 b sc).script.flatMap chgRouteOp =
+      (routePlan (sortRoutes (alignVRFs a0 b {}).2.routes) (sortRoutes b.routes)).1 :=
+  engine_routeOps a0 b sc (WF_of_wfB hw) hok
+
+/-- **`ios_routes_covered_every_step`** (whole script, class `wfB`): the script is accepted, and after
+EVERY printed command (`take k`; a replacement `no ip route A\N ip route B` is one command line)
+every destination — (VRF, destination) as read by `keyOf` — that has a route on the device before the
+script and after the script has a route.  With `ios_routes_converge`: in a VRF with target routes
+"after" is the target's route table. -/
+theorem ios_routes_covered_every_step (a0 b : Config) (sc : Scripts) (hw : wfB a0 b sc = true)
+    (hok : (engine a0 b sc).ok = true) (keyOf : String → String × String)
+    (hkey : ∀ r ∈ a0.routes ++ b.routes, keyOf r.text = r.key) :
+    ∃ dfin, exec (ofConfig a0) (engine a0 b sc).script = some dfin ∧
+      ∀ k, ∃ dk, exec (ofConfig a0) ((engine a0 b sc).script.take k) = some dk ∧
+        ∀ t0 ∈ a0.routes.map (·.text), (∃ t ∈ dfin.routes, keyOf t = keyOf t0) → ∃ t ∈ dk.routes, keyOf t = keyOf t0 :=
+  script_routes_covered a0 b sc (WF_of_wfB hw) hok keyOf hkey
+
 /-- `ios_plan_all_both_quiet` / `ios_plan_quiet_only_if_equivalent` (F2Plan, on the cells of
 `NA.Acl.planIOS`): identical lists with the identity script are planned as "nothing to do"; an empty
 plan of a valid script that keeps a line means block equivalence. -/
@@ -591,6 +690,66 @@ open W in
 example : quietLines (tgtN.lines "e0_in") (tgtN.lines "e0_in") [⟨0,3,0,3⟩] = true ∧
     incrOK (tgtN.lines "e0_in") (tgtN.lines "e0_in") [⟨0,3,0,3⟩] = true := by decide
 
+/-! ### Resume: witnesses -/
+
+/-! Witnesses: the composed example above, cut inside the ACL sub-mode of the second ACL (8 lines) and
+between the two halves of the joined route line (11 lines). -/
+def W.sc8 : Scripts :=
+  { acl := [(("e0_in-DRC-0", "e0_in"), [⟨0,3,0,3⟩]), (("e1_in", "e1_in"), [⟨0,1,0,0⟩, ⟨1,2,0,1⟩])] }
+
+open W in
+example : ((exec (ofConfig devM) ((splitScript (engine devM tgtM scM).script).take 8)).map fun d =>
+    (d.mode, (entriesOf d "e1_in").map (·.1), wfB (reconf devM (devM.routes ++ tgtM.routes) d) tgtM sc8,
+     showChanges (engine (reconf devM (devM.routes ++ tgtM.routes) d) tgtM sc8).script)) =
+    some (some (.acl "e1_in"), [10000, 20000], true,
+      ["ip access-list resequence e1_in 10000 10000", "ip access-list extended e1_in", "no 10000",
+       "ip access-list resequence e1_in 10 10",
+       "no ip route 10.8.0.0 255.255.0.0 10.1.1.253\\N ip route 10.8.0.0 255.255.0.0 10.1.1.254",
+       "no ip access-list extended old-DRC-1"]) := by decide
+
+open W in
+example : ((exec (ofConfig devM) ((splitScript (engine devM tgtM scM).script).take 11)).map fun d =>
+    (d.routes, wfB (reconf devM (devM.routes ++ tgtM.routes) d) tgtM scM2,
+     showChanges (engine (reconf devM (devM.routes ++ tgtM.routes) d) tgtM scM2).script)) =
+    some (["vrf V1 10.9.0.0 255.255.0.0 10.2.2.254"], true,
+      ["ip route 10.8.0.0 255.255.0.0 10.1.1.254", "no ip access-list extended old-DRC-1"]) := by decide
+
+def W.r1 := W.mkL "remark r" .remark
+def W.devC : Config := { intfs := [{ name := "Ethernet0", addr := "x", binds := [] }], acls := [] }
+def W.tgtC : Config := { intfs := [W.e0 "e0_in"], acls := [("e0_in", [W.pA, W.r1, W.pT])] }
+
+open W in
+/-- `wfB` is not closed under prefixes: the pair is in the class (nothing is compared line by line:
+the target ACL is transferred), the state after the whole script is not (the transferred ACL with its
+remark line is compared with the target's). -/
+theorem ios_wfB_not_prefix_closed :
+    wfB devC tgtC {} = true ∧ (engine devC tgtC {}).ok = true ∧
+    ((exec (ofConfig devC) (engine devC tgtC {}).script).map fun d =>
+      wfB (reconf devC (devC.routes ++ tgtC.routes) d) tgtC { acl := [(("e0_in-DRC-0", "e0_in"), [⟨0,3,0,3⟩])] }) = some false := by
+  decide
+
+/-! ### Routes: witnesses -/
+
+/-- the reader of (VRF, destination) for the composed example -/
+def W.keyM (t : String) : String × String :=
+  (((W.devM.routes ++ W.tgtM.routes).find? fun r => r.text == t).map Route.key).getD ("", "")
+
+open W in
+example : (∀ r ∈ devM.routes ++ tgtM.routes, keyM r.text = r.key) ∧
+    (routePlan (sortRoutes (alignVRFs devM tgtM {}).2.routes) (sortRoutes tgtM.routes)).1 =
+      [.replRoute "10.8.0.0 255.255.0.0 10.1.1.253" "10.8.0.0 255.255.0.0 10.1.1.254"] := by decide
+
+open W in
+/-- Why the replacement is ONE command line: if its halves arrive separately (`splitScript`) and the
+connection is lost in between, destination 10.8.0.0/16 has no route although it has one before and
+after. -/
+theorem ios_routes_uncovered_between_halves :
+    ((exec (ofConfig devM) ((splitScript (engine devM tgtM scM).script).take 11)).map fun d =>
+      d.routes.any fun t => keyM t == ("", "10.8.0.0/16")) = some false ∧
+    (devM.routes.map (·.text)).any (fun t => keyM t == ("", "10.8.0.0/16")) = true ∧
+    ((exec (ofConfig devM) (engine devM tgtM scM).script).map fun d =>
+      d.routes.any fun t => keyM t == ("", "10.8.0.0/16")) = some true := by decide
+
 def obligations : List Lean.Name := [
   ``ios_names_fresh, ``ios_confmode_tracks, ``ios_confmode_tracks_events, ``ios_confmode_exec,
   ``ios_acl_object_converges_partial, ``ios_acl_object_replaced, ``ios_unordered_ranges,
@@ -598,7 +757,9 @@ def obligations : List Lean.Name := [
   ``ios_bindings_converge, ``ios_routes_converge,
   ``ios_routes_untouched_if_unspecified, ``ios_unmanaged_vrf_untouched, ``alignVRFs_frame,
   ``ios_F2_converges_counterexample, ``ios_unchanged_if_equivalent_counterexample, ``ios_F2_unchanged_only_if_equivalent, ``ios_acl_quiet_only_if_equivalent,
-  ``ios_F2_quiet, ``ios_F2_idempotent_partial, ``ios_no_generated_leftover, ``ios_plan_all_both_quiet, ``planIOS_empty_blockEquiv,
+  ``ios_F2_quiet, ``ios_F2_idempotent_partial, ``ios_no_generated_leftover, ``ios_F2_resume_partial, ``ios_split_script_same,
+  ``ios_wfB_not_prefix_closed, ``ios_route_plan_phases, ``ios_route_commands_are_plan,
+  ``ios_routes_covered_every_step, ``ios_routes_uncovered_between_halves, ``ios_plan_all_both_quiet, ``planIOS_empty_blockEquiv,
   ``plan_second_script_counterexample]
 
 end NA.F2
